@@ -13,8 +13,9 @@ base-field helper API.  This tool
           table states what the API means, it is never generated from the bodies).
   check   compares the table with the declarations / definitions of a source tree (rows whose overload is declared but
           has no definition, declarations without a row, rows without a declaration).
-  gen     writes spec/Overloads17.tla (the table as a TLA+ function id -> record) and the generated part of the C++
-          driver (layout17_rows.inc, one call site per row and build variant) into a directory."""
+  gen DIR [--inc]  writes Overloads17.tla (the table as a TLA+ function id -> record) into DIR (spec/ for the committed
+          copy) and, with --inc, the generated part of the C++ driver (DIR/<variant>/layout17_rows.inc, one call site
+          per row of that build variant; lib/c17.py writes these into its work directory)."""
 import json, os, re, sys, hashlib
 
 HERE = os.path.dirname(os.path.abspath(__file__))
@@ -276,10 +277,11 @@ def main():
         out = a[1]
         t = load_table()
         open(os.path.join(out, 'Overloads17.tla'), 'w').write(gen_tla(t))
-        for v in ('avx2', 'avx512'):
-            os.makedirs(os.path.join(out, v), exist_ok=True)
-            open(os.path.join(out, v, 'layout17_rows.inc'), 'w').write(gen_inc(t, v))
-        print('generated Overloads17.tla and layout17_rows.inc (avx2, avx512) in', out)
+        if '--inc' in a:
+            for v in ('avx2', 'avx512'):
+                os.makedirs(os.path.join(out, v), exist_ok=True)
+                open(os.path.join(out, v, 'layout17_rows.inc'), 'w').write(gen_inc(t, v))
+        print('generated Overloads17.tla%s in %s' % (' and <variant>/layout17_rows.inc' if '--inc' in a else '', out))
     return 0
 
 
